@@ -412,6 +412,7 @@ DB = "nostr_relay/storage/db.py"
 BASE = "nostr_relay/storage/base.py"
 
 MUTANTS = [
+    M("c19-cleanup-unguarded", "nostr_relay/web.py", "        if rate_limiter:\n            rate_limiter.cleanup()\n", "        rate_limiter.cleanup()\n", "C19.none"),
     M("c19-no-catch-all", WEB, "            except Exception:\n                log.exception(\"client loop\")\n                await ws_close(code=1013)\n                break\n", "", "C19.contain", canary=True),
     M("c19-catch-all-continue", WEB, "                log.exception(\"client loop\")\n                await ws_close(code=1013)\n                break", "                log.exception(\"client loop\")\n                continue", "C19.contain"),
     M("c19-recv-outside-try", WEB, "        while True:\n            try:\n                async with timeout(message_timeout):\n                    message = json_loads(await ws_recv())\n",
